@@ -14,6 +14,7 @@ RULE = ("cases = prefix + E1(E2(...En(payload))) + suffix, n = 1..4 (thorough 1.
         "contains no decoded node) - failing cases are discarded and counted. Oracle: chain of nodes with the successive plaintexts, "
         "types and labels, each denoting exactly its blob (through undecoded contexts only), innermost children == independent "
         "scan of the payload node, flatten == surroundings with re-quoted payload, chain cut exactly at depth limits < n. "
+        "Added after the blind seed rounds: every element / separator spelling of byte arrays, any white space where the expression syntax allows it, payloads of 3 kB..70 kB. "
         "distinct_nontrivial = distinct judged inputs.")
 ASSUMPTIONS = ["literal layers (concat/reverse/replace) accept printable ASCII without quote, back-tick and backslash",
                "cmd-caret directly inside cmd-caret is domain-incompatible (one cmd result swallows the other)"]
